@@ -171,7 +171,11 @@ func dischargeAll(workDir string, obls []*Obligation, timeoutS int) {
 				}
 				script := o.vc.scriptOpt(o.Upto, o.Path, o.Goal, false, false)
 				prev := o.Result
-				o.Result = solve(workDir, fmt.Sprintf("o%04d%s", i, tag), script, tmo)
+				t := tmo
+				if o.NoRetry {
+					t = tmo/3 + 1 // a recorded finding: expected not to discharge
+				}
+				o.Result = solve(workDir, fmt.Sprintf("o%04d%s", i, tag), script, t)
 				o.Result.Script = filepath.Join(workDir, fmt.Sprintf("o%04d%s.smt2", i, tag))
 				if prev != nil {
 					o.Result.Ms += prev.Ms
@@ -196,7 +200,7 @@ func dischargeAll(workDir string, obls []*Obligation, timeoutS int) {
 	var again []int
 	for _, i := range first {
 		o := obls[i]
-		if !o.Cover && o.Result != nil && o.Result.Status != "unsat" && o.Result.Status != "sat" {
+		if !o.Cover && !o.NoRetry && o.Result != nil && o.Result.Status != "unsat" && o.Result.Status != "sat" {
 			again = append(again, i)
 		}
 	}
